@@ -360,6 +360,8 @@ func Corpus(o Options) []Case {
 		sig("no parameters, unnamed results of types with one derived name", "M() (float64, float32, string, string)")
 		sig("no parameters, a declared result name equal to a derived one", "M() (n int, _ int64)")
 		sig("no parameters, two unnamed foreign interface results", "M() (io.Reader, io.Reader)")
+		// a parameter named like the local type its own type is instantiated with (only nameable in the source package)
+		add("sig:param named like the type argument of its generic type", "\tM(lt LG[lt]) error\n\tN(lt *lt, x []LG[lt]) LG[lt]\n\tO(MyInt LG[MyInt]) (LT LG[LT])\n", "", 0, true, []string{"M", "N", "O"}, nil, "")
 		sig("result func", "M() func(int, ...string) error")
 		sig("many methods", "A(a int) int\n\tB(b string) string\n\tC(c bool) bool\n\tD()")
 		{
